@@ -50,17 +50,17 @@ func genScript(r *rand.Rand, handler string, typ int, isHTTP bool, hasCID bool) 
 	var replies []string
 	switch {
 	case handler == "access":
-		replies = []string{"granted", "denied", "access", "accessnone", "notfound", "err", "plainerr", "invquery", "unmarshalable"}
+		replies = []string{"granted", "denied", "access", "accessnone", "notfound", "err", "plainerr", "invquery", "unmarshalable", "panicmarshal"}
 	case handler == "get":
 		if typ == 2 {
-			replies = []string{"coll", "qcoll", "notfound", "err", "invquery", "invquerymsg", "unmarshalable"}
+			replies = []string{"coll", "qcoll", "notfound", "err", "invquery", "invquerymsg", "unmarshalable", "panicmarshal"}
 		} else {
-			replies = []string{"model", "qmodel", "notfound", "err", "invquery", "plainerr", "unmarshalable"}
+			replies = []string{"model", "qmodel", "notfound", "err", "invquery", "plainerr", "unmarshalable", "panicmarshal"}
 		}
 	case handler == "new":
 		replies = []string{"new", "notfound", "err", "invparams", "methodnotfound", "invparamsmsg"}
 	default:
-		replies = []string{"ok", "oknil", "resource", "notfound", "err", "plainerr", "invparams", "invparamsmsg", "invquery", "methodnotfound", "unmarshalable"}
+		replies = []string{"ok", "oknil", "resource", "notfound", "err", "plainerr", "invparams", "invparamsmsg", "invquery", "methodnotfound", "unmarshalable", "panicmarshal"}
 	}
 	switch k := r.IntN(100); {
 	case k < 68:
